@@ -57,7 +57,10 @@ MC = {
                          ("mergeTakesScan", "LocSound|ReadBack", "rebuild")]),
     "C06": dict(quick=[cfgd(SPB=1, MaxRev=4, Ops={"revert"}),
                        cfgd(MaxNB=2, InitNB=2, SPB=1, MaxV=1, MaxHead=2, MaxLen=3, MaxRev=3, Ops={"unmap", "revert", "read"})],
-                thorough=[cfgd(MaxRev=5, MaxHead=3, MaxLen=3, Ops={"revert", "reopen"}),
+                # (two values x two sectors x reopen does not finish in 100 min since Unmap / ReplaceDisk /
+                # the rebuild actions joined the model: one dimension at a time; 2.5 M and 1.3 M distinct states)
+                thorough=[cfgd(MaxRev=5, MaxHead=3, MaxLen=3, MaxV=1, Ops={"revert", "reopen"}),
+                          cfgd(MaxRev=5, MaxHead=3, MaxLen=3, SPB=1, Ops={"revert", "reopen"}),
                           cfgd(SPB=1, MaxV=1, MaxHead=3, MaxLen=4, MaxRev=5, Ops={"revert"})],
                 mutants=[("punchWrongOwner", "PunchSafe|UserSnapImmutable", dict(MaxNB=2, InitNB=2, SPB=1, MaxHead=2, MaxLen=3)),
                          ("unmapAllFiles", "UserSnapImmutable", dict(MaxNB=2, InitNB=2, SPB=1, MaxV=1, MaxHead=2, MaxLen=3,
